@@ -22,17 +22,17 @@ import (
 // the caller.
 
 type held struct {
-	m        *mangos.Message
-	body     []byte
-	header   []byte
-	from     string
-	freeAt   int
+	m      *mangos.Message
+	body   []byte
+	header []byte
+	from   string
+	freeAt int
 }
 
 type retainer struct {
-	w     *W
-	held  []*held
-	tick  int
+	w    *W
+	held []*held
+	tick int
 }
 
 func (r *retainer) keep(m *mangos.Message, from string, keepFor int) {
